@@ -187,7 +187,10 @@ impl Names {
     // ------------------------------------------------------------------ C10 clause 1
     fn c10_tree(&self, rng: &mut Rng, ctx: &mut Ctx) {
         let wild = rng.chance(2, 3);
-        let a = self.gen_tree(rng, wild);
+        let mut a = self.gen_tree(rng, wild);
+        if rng.chance(1, 10) && add_xml_only_decl(&mut a, rng) {
+            ctx.count("trees_with_an_xmlns_xml_only_element");
+        }
         if a.count() >= 3 {
             ctx.nontrivial(a.structural_hash());
         }
